@@ -104,6 +104,13 @@ ROLES = {
     '_input_variables': ('elfi.methods.post_processing:RegressionAdjustment', 'method',
                          lambda f: f.params[1:] == ['model', 'sample', 'summary_names'] and
                          f.name != 'fit'),
+    '_fit1': ('elfi.methods.post_processing:RegressionAdjustment', 'method',
+              lambda f: _has(f, 'self._regression_model(') and len(f.params) == 3),
+    '_pairs': ('elfi.methods.post_processing:RegressionAdjustment', 'method',
+               lambda f: any(isinstance(n, ast.Yield) for n in own_nodes(f.node))),
+    '_check_fitted': ('elfi.methods.post_processing:RegressionAdjustment', 'method',
+                      lambda f: f.params == ['self'] and not f.is_property and
+                      _has(f, 'raise ') and _has(f, 'self._fitted')),
     '_find_rotation_vector': ('elfi.methods.inference.romc:RegionConstructor', 'method',
                               lambda f: _has(f, 'np.linalg.eig(')),
     '_define_posterior': ('elfi.methods.inference.romc:ROMC', 'method',
